@@ -68,8 +68,6 @@ def well_formed(idx):
     shape = idx.shape
     if type(shape) is not tuple or any(type(s) is not int or s < 0 for s in shape) or len(shape) < 1:
         raise Malformed("bad-shape", "shape %r" % (shape,))
-    if isinstance(idx.common, numpy.generic):
-        raise Malformed("numpy-common", "common %r is a NumPy scalar" % (idx.common,))
     nrows = shape[0]
     for key, rowids in plain_items(idx):
         if type(key) is not tuple or len(key) != len(shape):
